@@ -90,7 +90,7 @@ func bitStr(bs []bool) string {
 var groups = []struct {
 	name string
 	f    func(*hlib.Ctx)
-}{{"steps", runSteps}, {"mc", runMC}, {"ms", runMS}, {"dc", runDC}, {"rast", runRast}}
+}{{"steps", runSteps}, {"mc", runMC}, {"ms", runMS}, {"c2f", runC2F}, {"dc", runDC}, {"rast", runRast}}
 
 // run: a panic inside one of the library's own goroutines (worker pools, ConcurrentMap) cannot be
 // recovered and kills the process, so every group of cases runs in a child process of this same
